@@ -6,7 +6,7 @@ class C05(CleanExplore):
     id = "C05"
     which = "C05"
     rule = ("state = tree, transition = cleaning pass (TreeCleaner.cleaner_methods in order), from the tree of every enumerated input "
-            "(cleaner-trigger alphabet^<=2, SIGMA^1, SIGMA_CORE^2, contexts x SIGMA_CORE, document grammar); own validator after "
+            "(cleaner-trigger alphabet^<=2, SIGMA^1, SIGMA_CORE^2, contexts x SIGMA_CORE, document grammar, br/list/deep-nesting wrappers, cleaner histories, books of <=3 articles in 3 layouts cleaned in one go); own validator after "
             "build_advanced_tree and after EACH pass; containment contract after the full sequence; distinct = distinct final trees")
     assumptions = ("inputs from the stated alphabets (mc/gen/wikitext.py, mc/gen/cleantriggers.py)",)
 
